@@ -562,6 +562,7 @@ func checkStreamWriter(p *Program, r *Result) {
 			badp = "too many paths"
 		}
 		for _, pa := range paths {
+			flagsSet := map[string]bool{}
 			var after bool
 			state := "unknown"
 			var lastStore *ssa.Store
@@ -574,6 +575,12 @@ func checkStreamWriter(p *Program, r *Result) {
 						state = "unknown"
 					}
 					if st, ok := in.(*ssa.Store); ok {
+						// a "closed" flag: a bool field of the writer set to true
+						if fa, ok := st.Addr.(*ssa.FieldAddr); ok && structTypeName(fa.X.Type()) == pkgStream+".Writer" {
+							if k, isK := st.Val.(*ssa.Const); isK && k.Value != nil && k.Value.ExactString() == "true" {
+								flagsSet[fieldName(fa.X.Type(), fa.Field)] = true
+							}
+						}
 						if fa, ok := st.Addr.(*ssa.FieldAddr); ok && fieldName(fa.X.Type(), fa.Field) == "err" {
 							lastStore = st
 							if isFreshNonSentinelError(st.Val) || knownNonNil[stripConv(st.Val)] || p.definitelyNonNil(stripConv(st.Val), 0) {
@@ -617,7 +624,13 @@ func checkStreamWriter(p *Program, r *Result) {
 			}
 			if after && pa.End == "return" {
 				n++
-				if state != "nonnil" {
+				closedByFlag := false
+				for f := range flagsSet {
+					if refusesOnFlag(p, write, cls, flush, f) {
+						closedByFlag = true
+					}
+				}
+				if state != "nonnil" && !closedByFlag {
 					badp = "path " + pa.String() + " returns from Close after the final flush with w.err not known to be non-nil: a later Write could seal another chunk after the final one"
 				}
 			}
@@ -653,9 +666,24 @@ func checkStreamWriter(p *Program, r *Result) {
 					if a.Kind != "cmp" || a.Op != "==" || a.Y.Op != "Nil" || !strings.HasPrefix(a.X.String(), "Field(Recv.err") {
 						return false
 					}
-					// the tested load must be in the entry block (before any store)
+					// the tested load comes before any store to the field (it may follow other
+					// refusals, such as an "already closed" flag)
 					ld, isLd := a.X.V.(*ssa.UnOp)
-					return isLd && ld.Block() == fn.Blocks[0]
+					if !isLd {
+						return false
+					}
+					if ld.Block() == fn.Blocks[0] {
+						return true
+					}
+					vis := p.Reach([]Loc{blockStart(fn.Blocks[0])}, func(in ssa.Instruction) bool { return in == ssa.Instruction(ld) })
+					for in := range vis {
+						if st, ok := in.(*ssa.Store); ok {
+							if fa, ok := st.Addr.(*ssa.FieldAddr); ok && fieldName(fa.X.Type(), fa.Field) == "err" {
+								return false
+							}
+						}
+					}
+					return true
 				})
 				if !ok {
 					okf = false
@@ -691,4 +719,36 @@ func pairedErrOf(v ssa.Value, call ssa.Value) bool {
 		}
 	}
 	return false
+}
+
+// refusesOnFlag: Write and Close do their buffer work (flushing, copying into the buffer) only
+// where the bool field flag of the writer is known to be false: once it is set, nothing more is
+// sealed.
+func refusesOnFlag(p *Program, write, cls, flush *ssa.Function, flag string) bool {
+	for _, fn := range []*ssa.Function{write, cls} {
+		ftb := p.TB(fn)
+		for _, b := range fn.Blocks {
+			for _, in := range b.Instrs {
+				work := false
+				switch x := in.(type) {
+				case ssa.CallInstruction:
+					n := calleeName(x.Common())
+					work = n == flush.String() || n == "builtin copy" || n == "builtin append"
+				case *ssa.Store:
+					if fa, ok := x.Addr.(*ssa.FieldAddr); ok && fieldName(fa.X.Type(), fa.Field) == "unwritten" {
+						work = true
+					}
+				}
+				if !work {
+					continue
+				}
+				if _, ok := findFact(ftb.FactsAt(b), func(a Atom) bool {
+					return a.Kind == "bool" && !a.Pol && a.X != nil && strings.HasPrefix(a.X.String(), "Field(Recv."+flag)
+				}); !ok {
+					return false
+				}
+			}
+		}
+	}
+	return true
 }
